@@ -15,8 +15,8 @@
    encoders for every source format, destination re-read and compared with the composed specifications of the
    operations, which are themselves the theorems of C09-C15): correspondence/exploration, not proof. *)
 From Coq Require Import List ZArith NArith.
-From Astisub Require Import Kit.Base Kit.Str Model.Files Model.Ops Model.Srt Model.Vtt Model.Conv Model.ConvOps Proofs.FilesProofs.
-From Astisub Require Import Proofs.SrtProofs Proofs.VttDoc Proofs.ConvProofs Proofs.ConvOpsProofs.
+From Astisub Require Import Kit.Base Kit.Str Model.Files Model.Ops Model.Srt Model.Vtt Model.Conv Model.ConvOps Model.Plain Proofs.FilesProofs.
+From Astisub Require Import Proofs.SrtProofs Proofs.VttDoc Proofs.ConvProofs Proofs.ConvOpsProofs Proofs.PlainProofs.
 Import ListNotations.
 
 (* SubRip file -> WebVTT file: cues, order, times to the millisecond, text per line *)
@@ -68,6 +68,28 @@ Example C07_ops_example :
   map (fun s => (si_st s, si_en s)) (srt_ops ex_ops (renumber_truncate ex_ops_src)) =
     [(0, 400000000); (1500000000, 5500000000); (6500000000, 7500000000)]%Z.
 Proof. split; [exact ex_ops_src_repr | split; [exact ex_ops_ok | exact ex_ops_result]]. Qed.
+
+(* Every pair of codecs at once.  A codec is plain-faithful at unit u when every acceptable plain cue list (start, end,
+   text of each line) is written to a document that reads back with the same cues, order and texts, times truncated to
+   u.  Any two such codecs compose into the conversion statement of the property: source written, converted through
+   the shared cue list (for unstyled cues: the plain view; enc = writer after of_plain, dec = to_plain after reader),
+   destination read back = the cues truncated to the source's
+   and then to the destination's unit.  Instances: SubRip and WebVTT below; the other codecs next to their round-trip
+   theorems. *)
+Theorem C07_pair : forall uA okA encA decA uB okB encB decB,
+  plain_faithful uA okA encA decA -> plain_faithful uB okB encB decB ->
+  forall p, okA p -> okB (ptrunc uA p) ->
+  exists src dst, encA p = Ok src /\ convert_plain decA encB src = Ok dst /\ decB dst = Ok (ptrunc uB (ptrunc uA p)).
+Proof. exact plain_pair. Qed.
+Print Assumptions C07_pair.
+Theorem C07_srt_plain_faithful : plain_faithful 1000000 srt_plain_ok srt_enc srt_dec.
+Proof. exact srt_plain_faithful. Qed.
+Print Assumptions C07_srt_plain_faithful.
+Theorem C07_vtt_plain_faithful : plain_faithful 1000000 vtt_plain_ok vtt_enc vtt_dec.
+Proof. exact vtt_plain_faithful. Qed.
+Print Assumptions C07_vtt_plain_faithful.
+Example C07_plain_example : srt_plain_ok ex_plain /\ vtt_plain_ok (ptrunc 1000000 ex_plain).
+Proof. split; [exact ex_plain_srt_ok | exact ex_plain_vtt_ok]. Qed.
 
 Example C07_conversion_example : Forall repr_item ex_conv /\ repr_vdoc (conv_sv (renumber_truncate ex_conv)) [] [].
 Proof. split; [exact ex_conv_srt | exact ex_conv_repr]. Qed.
